@@ -98,6 +98,19 @@ Theorem own_output_not_replaced : forall i rm own s src p v ops r,
 Proof. exact own_output_not_replaced_thm. Qed.
 Print Assumptions own_output_not_replaced.
 
+(* crash_safe and sigint_safe WITHOUT the hypothesis that the destinations of distinct sources are distinct
+   (wf_shared_dst = wf minus that clause), for every mode and naming rule (default names such as a.zst + a.zstd,
+   --output-dir-flat, -r), with -f and --rm, under any fault combination: after any k operations, and after SIGINT at any
+   point, every regular source still holds its bytes or its destination is closed and holds data standing for it.
+   This is the repair a937acd (an output of this command is never replaced on behalf of another input) as a theorem:
+   it is false for the model of the code before that commit (zstd -d -f --rm a.zst a.zstd). *)
+Theorem crash_safe_shared_dst : forall rel i ls s0 vs, wf_shared_dst i (eff_srcs i ls s0) s0 ->
+  forall src f0, In src (eff_srcs i ls s0) -> look s0 src = Reg f0 -> verdict_sound rel i (f_bytes f0) (vs src) ->
+  forall k, safe rel (target s0 src) (f_bytes f0) (dst_of i (eff_srcs i ls s0) src) (run (firstn k (fio_ops i ls s0 vs)) s0) /\
+            safe rel (target s0 src) (f_bytes f0) (dst_of i (eff_srcs i ls s0) src) (run (sigint_ops k (fio_ops i ls s0 vs)) s0).
+Proof. exact crash_safe_shared_dst_thm. Qed.
+Print Assumptions crash_safe_shared_dst.
+
 (* The prompts (UTIL_requireUserConfirmation as repaired in f7ae77e): unless the answer starts with 'y' or 'Y' -- a NUL
    byte, end of input and every other byte included -- a pre-existing regular file is never unlinked, truncated or
    written, in every intermediate state, also after SIGINT, under any fault. *)
